@@ -16,6 +16,7 @@ import inventory_blockbuffer as B
 REPO = os.environ.get("VERIF_REPO", "/repo")
 ROOT = os.path.join(tempfile.gettempdir(), "blockbuffer_selftest_%d" % os.getpid())
 MODULE = "CC.Buffer.Src"
+MODULES = {"block-buffer": "CC.Buffer.Src", "block-padding": "CC.Buffer.Src", "digest": "CC.Buffer.SrcTraits", "cipher": "CC.Buffer.SrcTraits"}
 BBF, PADF, DIGF, FIXF, STRF = ("block-buffer", "src/lib.rs"), ("block-padding", "src/lib.rs"), ("digest", "src/digest.rs"), \
     ("digest", "src/fixed.rs"), ("cipher", "src/stream.rs")
 
@@ -84,7 +85,7 @@ CASES = [
         suball("self.buffer[..rem.len()].copy_from_slice(rem);\n        self.pos = rem.len();", "self.buffer[..tail.len()].copy_from_slice(tail);\n        self.pos = tail.len();"))),
     ("P02 len64_padding_be: `f(&self.buffer); self.pos = 0;` exchanged (independent)", False, BBF, sub1("        f(&self.buffer);\n        self.pos = 0;\n", "        self.pos = 0;\n        f(&self.buffer);\n", 0)),
     ("P03 input_block: temporaries for the slice bounds", False, BBF, sub1(SMALL, "            let lo = self.pos;\n            let hi = lo + n;\n            self.buffer[lo..hi].copy_from_slice(input);\n", 0)),
-    ("P04 comparisons written the other way round (`r > input.len()`, `0 != self.pos`)", False, BBF, chain(sub1("if input.len() < r {", "if r > input.len() {", 0), sub1("if self.pos != 0 && input.len() >= r {", "if self.pos != 0 && r <= input.len() {", 0))),
+    ("P04 comparisons written the other way round (`r > input.len()`, `r <= input.len()`)", False, BBF, chain(sub1("if input.len() < r {", "if r > input.len() {", 0), sub1("if self.pos != 0 && input.len() >= r {", "if self.pos != 0 && r <= input.len() {", 0))),
     ("P05 digest_pad: marker store after the cursor increment, through a temporary", False, BBF, sub1("        self.buffer[self.pos] = 0x80;\n        self.pos += 1;\n", "        let p = self.pos;\n        self.pos += 1;\n        self.buffer[p] = 128;\n")),
     ("P06 `self.pos += n` written `self.pos = n + self.pos`", False, BBF, sub1("            self.pos += n;", "            self.pos = n + self.pos;", 0)),
     ("P07 block-padding: parameter `block` renamed in Iso7816::pad_block, comments added", False, PADF, sub1("        if pos >= block.len() {\n            Err(PadError)?\n        }\n        block[pos] = 0x80;\n        set(&mut block[pos + 1..], 0);", "        /* full? */ if pos >= block.len() {\n            Err(PadError)?\n        }\n        // marker\n        block[pos] = 0x80;\n        let from = pos + 1;\n        set(&mut block[from..], 0);")),
@@ -93,7 +94,19 @@ CASES = [
         sub1("        self.buffer[..input.len()].copy_from_slice(input);\n        self.pos = input.len();", "        self.pos = input.len();\n        self.buffer[..input.len()].copy_from_slice(input);"))),
     ("P09 len128_padding_be: `n` inlined, `b` renamed", False, BBF, sub1("        let b = data_len.to_be_bytes();\n        let n = self.buffer.len() - b.len();\n        self.buffer[n..].copy_from_slice(&b);", "        let lenbytes = data_len.to_be_bytes();\n        self.buffer[self.buffer.len() - lenbytes.len()..].copy_from_slice(&lenbytes);", 1)),
 ]
-TRAIT_CASES = []   # filled below when the trait part of the translator is present
+TRAIT_CASES = [
+    ("N40 digest blanket finalize_into_reset: `self.reset()` dropped", True, FIXF, sub1("        self.finalize_into_dirty(out);\n        self.reset();", "        self.finalize_into_dirty(out);")),
+    ("N41 digest blanket finalize_into_reset: reset BEFORE the finalisation", True, FIXF, sub1("        self.finalize_into_dirty(out);\n        self.reset();", "        self.reset();\n        self.finalize_into_dirty(out);")),
+    ("N42 Digest::finalize_reset: finalises in place instead of a clone", True, DIGF, sub1("let res = self.clone().finalize_fixed();\n        self.reset();", "let res = self.finalize_fixed_reset();")),
+    ("N43 Digest::finalize_reset: `self.reset()` dropped", True, DIGF, sub1("let res = self.clone().finalize_fixed();\n        self.reset();", "let res = self.clone().finalize_fixed();")),
+    ("N44 Digest::digest: the update is dropped", True, DIGF, sub1("        Update::update(&mut hasher, data);\n", "")),
+    ("N45 StreamCipher::apply_keystream swallows the error (`.ok()`; not in the reading table)", True, STRF, sub1("self.try_apply_keystream(data).unwrap();", "self.try_apply_keystream(data).ok();")),
+    ("N46 StreamCipherSeek::seek no longer unwraps", True, STRF, sub1("        self.try_seek(pos).unwrap()\n", "        let _ = self.try_seek(pos);\n")),
+    ("N47 a required method gains a default body (Reset::reset) — inventory", True, ("digest", "src/lib.rs"), sub1("    fn reset(&mut self);", "    fn reset(&mut self) {}")),
+    ("P20 Digest::finalize_reset: local renamed", False, DIGF, sub1("let res = self.clone().finalize_fixed();\n        self.reset();\n        res", "let digest = self.clone().finalize_fixed();\n        self.reset();\n        digest")),
+    ("P21 FixedOutput::finalize_fixed: local renamed, explicit return", False, FIXF, sub1("        let mut out = Default::default();\n        self.finalize_into(&mut out);\n        out", "        let mut o = Default::default();\n        self.finalize_into(&mut o);\n        return o;")),
+    ("P22 Digest::digest: UFCS call written as a method call on the bound", False, DIGF, sub1("Update::update(&mut hasher, data);", "<Self as Update>::update(&mut hasher, data);")),
+]
 
 
 def selected(cid, o):
@@ -107,6 +120,7 @@ def run(cmd, **kw):
 
 
 def main():
+    global MODULE
     only = sys.argv[1:]
     real = {}
     for c in B.CRATES:
@@ -139,6 +153,7 @@ def main():
                     "as expected" if ok else "UNEXPECTED", cid, "byte-identical" if same else "DIFFERS", len(inv["errors"])))
             else:
                 t0 = time.time()
+                MODULE = MODULES[crate]
                 b = run(["lake", "build", MODULE], cwd=V + "/lean")
                 failed = b.returncode != 0
                 errs = [l for l in b.stdout.splitlines() if l.startswith("error:")]
@@ -157,6 +172,7 @@ def main():
             assert lock2 != lock
             open(os.path.join(ROOT, "Cargo.lock"), "w").write(lock2)
             inv, _ = B.blockbuffer_regenerate(ROOT)
+            MODULE = "CC.Buffer.Src"
             b = run(["lake", "build", MODULE], cwd=V + "/lean")
             ok = b.returncode != 0 and any("not in the cargo registry" in e for e in inv["errors"])
             print("%-11s N90 Cargo.lock pins a block-buffer version whose source is not in the registry | translator errors: %d | lake build %s: %s | %s" % (
@@ -166,6 +182,7 @@ def main():
         shutil.rmtree(ROOT, ignore_errors=True)
         B.blockbuffer_regenerate(REPO)
     restored = open(out, encoding="utf-8").read() == reference
+    MODULE = "CC.Thm.C08"
     b = run(["lake", "build", MODULE], cwd=V + "/lean")
     print("restored from the real sources: %s; lake build %s: %s" % ("identical" if restored else "DIFFERENT", MODULE, "OK" if b.returncode == 0 else "FAILED"))
     nb = sum(1 for c in CASES + TRAIT_CASES if c[1]) + 1
